@@ -516,3 +516,37 @@ func H_C12_string() {
 		return p == nil, n, false, s
 	})
 }
+
+// H_C12_binSearchInduct: the binary search of the real minimizer at FULL 64-bit width, by one
+// inductive step (loop cut-point). Condition x >= theta, effective threshold th = max(theta, small)
+// (accept never takes values below `small`; those are handled by minimize()'s try-small loop).
+//   invariant  i <= th <= j  and  m.best == j      variant  j - i decreases
+//   exit       m.best == th
+func H_C12_binSearchInduct() {
+	theta := nondetU64("theta")
+	best0 := nondetU64("best")
+	assume(best0 > small)
+	assume(theta <= best0) // the current best satisfies the condition
+	th := theta
+	if th < small {
+		th = small
+	}
+	m := &minimizer{best: best0, cond: func(x uint64, label string) bool { return x >= theta }}
+	var i0, j0 uint64
+	cutLoop("minimizer).binSearch", func() {
+		i0, j0 = loopVarU64("i"), loopVarU64("j")
+		m.best = j0 // the loop carries m.best on the heap
+		assume(bAnd(i0 <= th, th <= j0))
+		assume(j0 <= best0)
+	}, func() {
+		i1, j1 := loopVarU64("i"), loopVarU64("j")
+		vassert(bAnd(i1 <= th, th <= j1), "C12: binSearch loses the threshold (invariant i <= threshold <= j broken)")
+		vassert(m.best == j1, "C12: binSearch's best is not its upper bound")
+		vassert(j1-i1 < j0-i0, "C12: binSearch does not make progress")
+		reach("iterated")
+	})
+	m.binSearch()
+	// returned: either the first probe (best-1) was rejected, or the loop ran to its end
+	vassert(m.best == th, "C12: binSearch does not end at the least value satisfying a monotone condition")
+	reach("returned")
+}
